@@ -601,7 +601,7 @@ def expected_actuator(cx, i, s, u, act, clamp_note):
     must = s.get('servo') in ('position', 'intvelocity') and dyn in ('none', 'integrator')
     if must:
       xs = [xw]
-      out['labels'].add('circle:wrapped' if xw != x else 'circle:nowrap-needed')
+      out['labels'].add(('circle:wrapped:' if xw != x else 'circle:nowrap-needed:') + s['servo'])
     else:
       xs = [x, xw]
       out['labels'].add('circle:ambiguous')
@@ -899,11 +899,15 @@ def draw_inputs(cx, rng):
   for i, s in enumerate(acts):
     u0, nu_ = int(m.actuator_ctrladr[i]), int(m.actuator_ctrlnum[i])
     a0, na_ = int(m.actuator_actadr[i]), int(m.actuator_actnum[i])
+    period = rot_period(cx, i, s) if s['trn']['kind'] != 'so3' else 0.0
     for r in range(nu_):
       lo, hi = m.actuator_ctrlrange[u0 + r]
       if lo == hi:
         lo, hi = -1.0, 1.0
       mode = rng.randint(6)
+      if period > 0 and s['dyn'] == 'none' and r == 0 and rng.randint(2):
+        d.ctrl[u0 + r] = round(rng.uniform(-2.5, 2.5) * period, 6)     # setpoints several turns away
+        continue
       if s['dyn'] == 'muscle':
         v = [rng.uniform(0, 1), rng.uniform(-0.5, 1.5), 0.0, 1.0, rng.uniform(0, 1), rng.uniform(-3, 3)][mode]
       elif mode <= 1:
@@ -922,6 +926,9 @@ def draw_inputs(cx, rng):
       if lo == hi:
         lo, hi = -1.0, 1.0
       mode = rng.randint(5)
+      if period > 0 and s['dyn'] == 'integrator' and rng.randint(2):
+        d.act[a0 + r] = round(rng.uniform(-2.5, 2.5) * period, 6)
+        continue
       if s['dyn'] == 'muscle':
         v = [rng.uniform(0, 1), rng.uniform(0, 1), 0.0, 1.0, rng.uniform(-0.5, 1.5)][mode]
       elif mode <= 1:
@@ -1054,8 +1061,8 @@ def main(ck):
       'muscle FL in (lmin,0.95) and FP for L>1 are compared with the tree-internal MJX reference instead of FLV.m '
       '(documented curves are stale there; counted under label muscle:FLV.m-deviation(region))',
       'dcmotor and pid+slewmax are covered by invariants only (clamps, moment arms, qfrc = moment^T force)']
-  n_tree = ck.budget(1300, 40000)
-  n_con = ck.budget(350, 10000)
+  n_tree = ck.budget(1300, 16000)
+  n_con = ck.budget(350, 4000)
 
   def test(case):
     gm, seed = case
